@@ -41,9 +41,10 @@ STMTS = (
     + [{"k": "include", "a": []}]
     + [{"k": "macro", "a": [u]} for u in ([], [1], [3, 2], [2, 1, 3])]
 )
+TRANS_STMTS = [{"k": "trans", "a": [t]} for t in ([3, 2], [2, 4, 3], [4])]
 PRIVATE = [1]
 SPECIALS = {1: "caller()", 2: "kwargs", 3: "varargs"}
-SITES = ["branch", "dump", "deps", "assign", "public", "undecl"]
+SITES = ["branch", "dump", "deps", "assign", "public", "undecl", "trans"]
 
 FILTER_POOL = ["abs", "capitalize", "escape", "first", "float", "int", "last", "length", "list", "lower", "max", "min",
                "reverse", "safe", "sort", "string", "striptags", "sum", "title", "trim", "unique", "upper"]
@@ -57,9 +58,10 @@ out = {"orders": [list(set(s)) for s in job.get("subsets", [])], "codes": [], "a
 if job.get("sources"):
     from jinja2 import Environment
     for src in job["sources"]:
+        ext = ["jinja2.ext.i18n"] if "{% trans" in src else []
         try:
-            a = Environment().compile(src, raw=True)
-            b = Environment().compile(src, raw=True)
+            a = Environment(extensions=ext).compile(src, raw=True)
+            b = Environment(extensions=ext).compile(src, raw=True)
         except Exception as e:
             a = b = "EXC " + type(e).__name__ + ": " + str(e)
         out["codes"].append(a)
@@ -156,6 +158,8 @@ def unparse_stmt(s, nm):
         return s1 + "".join("{{ " + nm.r + " is " + nm.t[t] + " }}" for t in a[1])
     if k == "include":
         return '{% include "inc" %}'
+    if k == "trans":
+        return "{% trans %}" + " ".join("{{ " + nm.v[n] + " }}" for n in a[0]) + "{% endtrans %}"
     if k == "macro":
         return "{% macro " + nm.macro + "() %}" + "".join("{{ " + SPECIALS[u] + " }}" for u in a[0]) + "{% endmacro %}"
     raise core.MachineryError(k)
@@ -190,7 +194,8 @@ def project(code, nm):
         s = line.strip()
         m = re.fullmatch(r"l_0_(\w+) = resolve\('(\w+)'\)", s)
         if m:
-            ev.append(["resolve", inv_v[m.group(2)]])
+            if m.group(2) in inv_v:          # gettext / ngettext are loaded by the extension's own call node
+                ev.append(["resolve", inv_v[m.group(2)]])
             continue
         if re.fullmatch(r"(l_0_\w+ = )+missing", s):
             ev.append(["missing", V(re.findall(r"l_0_(\w+) = ", s))])
@@ -234,6 +239,9 @@ def project(code, nm):
         if s.startswith("if (undefined(name='" + nm.cond) and line.startswith("    if "):
             ev.append(["if"])
             continue
+        if s.startswith("yield ") and "gettext" in s:
+            ev.append(["transvars", V(re.findall(r"'(\w+)': \(", s.split(" % {", 1)[1] if " % {" in s else ""))])
+            continue
         if s.startswith("yield "):
             for tid in re.findall(r"t_(\d+)\(", s):
                 ev.append(["use", int(tid)])
@@ -244,7 +252,7 @@ def project(code, nm):
 # TLC
 # ---------------------------------------------------------------------------
 def sw(**kw):
-    d = {"branch": False, "dump": True, "deps": True, "assign": True, "public": True}
+    d = {"branch": False, "dump": True, "deps": True, "assign": True, "public": True, "trans": True}
     d.update(kw)
     return d
 
@@ -317,6 +325,8 @@ def big_templates(rnd, names, n):
         for j in range(rnd.randint(2, 4)):
             nm = Namer(names, suffix=rnd.choice(["", "x", "y"]))
             body = "".join(unparse_stmt(rnd.choice(STMTS), nm) for _ in range(rnd.randint(1, 4)))
+            if rnd.random() < 0.1:
+                body += "{% trans %}{{ " + nm.v[2] + " }}{% endtrans %}"      # one free name: no set order involved
             w1, w2 = rnd.choice(wrappers), rnd.choice(wrappers)
             cand = w1(w2(body)) if rnd.random() < 0.5 else w1(body)
             parts.append(cand)
@@ -347,7 +357,8 @@ def report_diff(ck, kind, src, codes, seeds, extra=None):
             k = next((i for i in range(min(len(a), len(b))) if a[i] != b[i]), min(len(a), len(b)))
             line_a = a[k].strip() if k < len(a) else "<end>"
             line_b = b[k].strip() if k < len(b) else "<end>"
-            site = ("pull_dependencies" if "environment.filters[" in line_a or "environment.tests[" in line_a else
+            site = ("i18n-trans" if "{% trans" in src else
+                    "pull_dependencies" if "environment.filters[" in line_a or "environment.tests[" in line_a else
                     "pop_assign_tracking" if "context.vars.update" in line_a or "exported_vars" in line_a else
                     "dump_stores" if "new_context(" in line_a or ".derived(" in line_a else
                     "loads" if " = missing" in line_a or "resolve(" in line_a else "other")
@@ -360,8 +371,19 @@ def report_diff(ck, kind, src, codes, seeds, extra=None):
     return False
 
 
+def load_own_findings(ck):
+    """findings.d/C30.json holds the genuine defects this check found; until the maintainer has merged
+    them into known_findings.json they are matched from there."""
+    f = core.VERIF / "findings.d" / f"{PID}.json"
+    if f.exists():
+        have = {k["id"] for k in ck._known}
+        ck._known += [k for k in json.loads(f.read_text())
+                      if k["property"] == PID and k.get("status") == "open" and k["id"] not in have]
+
+
 def run(ck):
     core.use_repo()
+    load_own_findings(ck)
     quick = ck.tier == "quick"
     rnd = random.Random(ck.seed * 65537 + 30)
     seeds = [0, 1, 2, 3] if quick else [0, 1, 2, 3, 4, 5] + [rnd.randrange(6, 2 ** 32 - 1) for _ in range(2)]
@@ -382,12 +404,23 @@ def run(ck):
         rn = run_tlc("neg", STMTS, offs, 2, workers=4)
         ck.add_tlc(rn, "IdTrackOrder negative controls (each sorted site switched off)")
         printed += [json.loads(x) for x in set(rn.printed())]
+    # the i18n extension's unsorted iteration over the free names of a trans block: the code's setting
+    # (trans |-> FALSE) next to the repaired one
+    tstm = TRANS_STMTS + [STMTS[1], STMTS[5], STMTS[12]]
+    rt = run_tlc("trans", tstm, [sw(trans=False), sw()], 2, workers=4)
+    ck.add_tlc(rt, "IdTrackOrder: programs with trans blocks, code's setting (unsorted) and repaired setting")
+    tprinted = [json.loads(x) for x in set(rt.printed())]
+    tleaks = [b for b in tprinted if "leak" in b and not b["leak"]["trans"]]
+    ck.extra["model_predicts_seed_dependent_code_for_trans_programs"] = len({json.dumps(b["prog"]) for b in tleaks})
+    if not tleaks:
+        raise core.MachineryError("the model does not show the order dependence of the trans site")
+    printed += [b for b in tprinted if "canon" in b and any(s["k"] == "trans" for s in b["prog"])]
     progs = tlc_programs([b for b in printed if "canon" in b])
     if not progs:
         raise core.MachineryError("IdTrackOrder printed no programs")
     neg = {site: 0 for site in ("dump", "deps", "assign", "public")}
     for b in printed:
-        if "leak" in b:
+        if "leak" in b and b["leak"]["trans"]:
             for site in neg:
                 if not b["leak"][site]:
                     neg[site] += 1
@@ -398,7 +431,8 @@ def run(ck):
     ck.extra["load_bearing_sorted_calls"] = {"dump_stores": True, "pull_dependencies": True,
                                              "pop_assign_tracking sorted(vars)": True,
                                              "pop_assign_tracking sorted(public_names)": True,
-                                             "branch_update (unsorted in the code)": False}
+                                             "branch_update (unsorted in the code)": False,
+                                             "ext.i18n parse: for name in referenced (unsorted in the code)": True}
     t1 = time.time()
     # --- names and real compilations
     names = choose_names(ck, seeds, rnd)
@@ -466,6 +500,7 @@ def run(ck):
 
 def replay(ck, rec):
     core.use_repo()
+    load_own_findings(ck)
     c = rec["case"]
     seeds = c.get("seeds") or [0, 1, 2, 3]
     if len(seeds) < 4:
@@ -480,7 +515,7 @@ def replay(ck, rec):
         return
     if c["kind"] == "projection":
         nm = Namer(c["names"])
-        r = run_tlc("replay", [s for s in STMTS if s in c["prog"]], [sw()], len(c["prog"]), workers=2)
+        r = run_tlc("replay", [s for s in STMTS + TRANS_STMTS if s in c["prog"]], [sw()], len(c["prog"]), workers=2)
         for p in tlc_programs([json.loads(x) for x in set(r.printed())]):
             if p["prog"] == c["prog"] and project(codes[seeds[0]], nm) != canon_events(p["canon"]):
                 ck.violation(c, "projection still differs from the canonical order", rec.get("fingerprint"))
